@@ -36,8 +36,17 @@ INFO = dict(
               "objects the caller holds as an invariant by induction over every interleaving of mutators and copies "
               "+ landmark manager as a state machine with a ghost-tag ownership invariant, by induction over all "
               "histories; attribute-kind, copy-resolution and mutator-effect tables regenerated from the live "
-              "classes with kernel-decided obligations; model/implementation correspondence on sharing graphs, "
-              "heap histories and manager histories",
+              "classes with kernel-decided obligations; the BODIES of 19 anchored functions (Copyable.copy, "
+              "LazyList.copy, LandmarkManager.copy, LabelledPointUndirectedGraph.copy, HomogFamilyAlignment.copy on "
+              "the heap; LandmarkManager.__init__ / __setitem__ / __getitem__ / __delitem__ / __len__ / n_groups / "
+              "has_landmarks / group_labels / n_dims / copy / _transform_inplace and the Landmarkable.landmarks "
+              "setter on the manager world; LandmarkManager.__init__ and the Landmarkable.landmarks getter on the "
+              "heap) TRANSLATED from the source text of the working tree on every run (harness/trans_c06.py on "
+              "harness/py2lean2s.py: implicit mutable world, failure, try / except, for loops as folds) and proved "
+              "equal, for all arguments, to the definitions the theorems are about (22 re-checked obligations); the "
+              "manager machine run by the translated methods reaches, over every history, the worlds of the "
+              "model's machine; "
+              "model/implementation correspondence on sharing graphs, heap histories and manager histories",
     level_text="Theorems: copy_equal (same unfolding to every depth, nothing existing changes), copy_independent "
                "(owned cells of the copy are new, reachable cells of the original are old, for every heap conforming "
                "to tables that satisfy copyWF), the two write-invisibility corollaries, copy_total (copy succeeds), "
@@ -54,15 +63,40 @@ INFO = dict(
                "(distinct keys, one dimensionality, ownership), None-key resolution, set/assign/copy store copies "
                "(frame theorems), xform_refines (_transform_inplace moves every group of the receiver exactly once), "
                "observers_refine (iteration, group_labels, n_groups, has_landmarks, items_matching, n_dims are "
-               "functions of the ordered map).  The attribute-kind, copy-resolution and mutator-effect tables are "
+               "functions of the ordered map).  TRANSLATED rather than transcribed (GenProps/C06Src.lean, rebuilt "
+               "against Generated/C06Src.lean = the source text of the working tree, on every run): "
+               "copyableCopy_eq (the try / except AttributeError attribute loop of Copyable.copy is copySlots), "
+               "landmarkManagerCopy_eq / labelledCopy_eq (generic copy, then every value of the dict re-set to its "
+               "copy = deepenValues), lazyListCopy_eq, homogAlignCopy_eq, assembled in srcCopyObj_eq: on every closed "
+               "heap whose dicts have distinct keys the model's copyCall on an object IS the translated body of the "
+               "copy method Python resolves for its class (attribute copies by the model one level down); "
+               "copy_preserves_pyDict (distinct keys are an invariant of copy); lmSetItem_eq / lmGetItem_eq / "
+               "lmDelItem_eq / lmCopy_eq / lmTransformInplace_eq / lmInit_eq / lmNDims_eq / lmNGroups_eq / lmLen_eq / "
+               "lmHasLandmarks_eq / lmGroupLabels_eq / setLandmarks_eq (the manager machine's setItem, getItem, "
+               "delItem, copyMgr, xformMgr, newMgr, nDims, observers and assign are the translated methods, errors "
+               "by exception class); lmInitHeap_eq / landmarksGetter_eq / landmarksGetter_noop (the first access of "
+               ".landmarks is exactly the heap operation putFresh with the fragment Src.lmFrag that the driver "
+               "executes); and the property theorems restated ABOUT the translated methods: src_copy_equal, "
+               "src_copy_independent, src_copy_total, src_lm_refines_ordered_map, src_keys_order, "
+               "src_get_none_iff_single, src_assign_stores_copy, src_copy_mgr_equal_independent, src_xform_refines, "
+               "src_observers_refine; and over ALL HISTORIES: srcStep_eq (one step of the machine whose manager "
+               "methods are the translated bodies = one step of the model's machine, same world, same reply up to "
+               "the exception class), src_run_eq (by induction over the operation list), hence src_reachable_inv, "
+               "src_one_dimensionality, src_set_stores_copy about the translated code.  "
+               "The attribute-kind, copy-resolution and mutator-effect tables are "
                "regenerated from populated live instances on every run; `copyWF` and `mutEffects_ok` (every "
                "observed effect of every exercised public mutator updates only cells its receiver owns, with "
                "fresh content of a kind the table lists) are re-decided by the kernel; every sampled live object "
                "graph, also after every step of every sampled history, is checked to conform to the table "
-               "(hypothesis of the theorems).  An independent oracle checks equality, sharing, write-through and "
+               "(hypothesis of the theorems); every sampled live heap and its model copy are checked to have "
+               "distinct dict keys (pyDictB: the hypothesis PyDict of srcCopyObj_eq).  An independent oracle checks equality, sharing, write-through and "
                "public mutators on the real objects, per step of every history that what was done through one "
                "object is invisible in all others, and a value-semantics reference decides manager histories.",
-    level_note="Trusted: Lean kernel; axioms propext/Classical.choice/Quot.sound; harness/extract_c06.py (object-graph "
+    level_note="Trusted: Lean kernel; axioms propext/Classical.choice/Quot.sound; harness/py2lean2.py + "
+               "harness/py2lean2s.py (the source-to-Lean translator; self-tests tools/test_py2lean2.py, "
+               "tools/test_py2lean2s.py compare Python with #eval of the translation) and the C06 vocabulary "
+               "harness/trans_c06.py + lean/MenpoModel/Core/C06Src.lean (which Lean operation each Python expression "
+               "of the translated bodies stands for); harness/extract_c06.py (object-graph "
                "encoding and table extraction), this harness (incl. the differ that reads a mutator's effect off the "
                "object graph by object identity and array content), the driver's parser.  Python object identity and "
                "ndarray/sparse `.copy()` are modelled (a buffer's copy is a fresh buffer), not verified; the "
@@ -78,8 +112,11 @@ INFO = dict(
          "objects: the original, copies, copies of copies); distinct = distinct (class, operation sequence); "
          "non-trivial = a copy followed by a state-changing operation",
     partial=["public mutators in the model: copy(), landmark-group assignment / deletion (also through the inherited "
-             "update / setdefault / pop / popitem / clear) and the landmarks setter "
-             "are predicted by the model; for every other public mutator the model executes the update of the "
+             "update / setdefault / pop / popitem / clear), the landmarks setter and the first access of .landmarks "
+             "(the lazily created manager) are predicted by the model, and the model definitions that predict them "
+             "are proved equal to the bodies translated from the source (GenProps/C06Src.lean); "
+             "for every other public mutator (array kernels: _from_vector_inplace, set_h_matrix, set_target, "
+             "increment, orthonormalize_inplace ...) the model executes the update of the "
              "object graph that the real call was observed to make (writes into owned arrays, rebinding of "
              "attributes / items to freshly built object graphs, deletions), checks that it is confined to cells "
              "the receiver owns and predicts the aliasing graph of everything held afterwards; mutators whose "
@@ -96,7 +133,14 @@ INFO = dict(
              "stored is listed), established for every observed mutator effect by the regenerated obligation "
              "mutEffects_ok and re-checked by the driver after every step of every sampled history",
              "the model allocates a cell after computing its slots (the new object, the re-initialised dict of the "
-             "two deepening overrides); allocation order is not observable"],
+             "two deepening overrides); allocation order is not observable.  The translation vocabulary takes the "
+             "same liberty: the object a copy method / __init__ builds is a pending value (Src.PObj) that becomes "
+             "a cell when it is returned, and `new.x[k] = v.copy()` re-initialises the pending dict instead of "
+             "writing the shallow copy on the heap",
+             "the translated bodies equal the model under the well-formedness the Python data model guarantees: "
+             "dict keys / attribute names distinct (PyDict, an invariant of copy: copy_preserves_pyDict; for the "
+             "manager: WInv.keys), references inside the heap (Closed), `self` exists; the four ValueError refusals "
+             "of the manager are one exception class for the translated code (Src.toPy)"],
     assumptions=["object graphs are acyclic (a cyclic graph makes Copyable.copy recurse forever; the model returns "
                  "`fuel`)", "callables held by LazyList are opaque immutable values",
                  "error correspondence is by exception *type*: the four ValueError refusals of the manager are one "
@@ -149,6 +193,11 @@ THEOREMS = [
     "MenpoModel.C06.LM.observers_refine",
 ]
 TARGETS = ["MenpoModel.Props.C06", "MenpoModel.Drive.C06"]
+# the theorems of GenProps/C06Src.lean (about the bodies TRANSLATED from the source text): the 18 equality obligations
+# and the property theorems restated for the translated methods.  They are axiom-audited on every run on which the
+# obligations hold (when the source no longer translates to the model they are reported as a broken obligation instead).
+from .trans_c06 import SRC_THEOREMS, OBL_MODULE as SRC_OBL_MODULE  # noqa: E402
+THEOREMS = THEOREMS + SRC_THEOREMS
 
 
 MAX_DISTINCT_FAILURES = 6
@@ -405,13 +454,28 @@ def mutators(o, rng):
     return ms
 
 
+def _make(ctx, label, rng, rp):
+    """a populated instance, or None when the tree under test cannot build one (its constructors use copy() and the
+    mutators themselves): never a crash of the harness - the case is recorded as a broken tie, so that the directed
+    search runs and the run ends in a VIOLATION line"""
+    try:
+        return X.make(label, rng)
+    except Exception as e:  # noqa: BLE001  (whatever the implementation raises)
+        ctx.count("unbuildable:" + label)
+        if sum(1 for m in ctx.mismatches if m[0] == "build") < 5:
+            ctx.mismatch("build", "a populated %s could not be built on this tree: %r" % (label, e), rp)
+        return None
+
+
 def check_object(ctx, label, obj_seed, model_lines=None, cid=None, thorough_pokes=True):
     """one Part-A case on the real code; returns (impl_entries, enc_o, root_o) for the correspondence or None"""
     rng = random.Random(obj_seed)
     rp = {"part": "copy", "label": label, "obj_seed": obj_seed,
           "python": "from harness import extract_c06 as X; import random; o = X.make(%r, random.Random(%r)); c = o.copy()"
                     % (label, obj_seed)}
-    o = X.make(label, rng)
+    o = _make(ctx, label, rng, rp)
+    if o is None:
+        return None
     cls = type(o).__name__
     site = "C06/copy/" + cls
     ctx.count("class:" + cls)
@@ -468,7 +532,14 @@ def check_object(ctx, label, obj_seed, model_lines=None, cid=None, thorough_poke
     ctx.check(digest(c) == dc and digest(o) == d0, "C06/harness", "undo-failed", "write-through undo failed", rp)
     # public mutators, alternating sides
     sides = [o, c]
-    for name, _ in mutators(o, rng):
+    try:
+        names_o = [name for name, _ in mutators(o, rng)]
+        dict(mutators(c, random.Random(0)))
+    except Exception as e:  # noqa: BLE001  a public observer (has_landmarks, n_dims, group_labels ...) raised
+        ctx.fail(site, "observer-raises:" + type(e).__name__,
+                 "a public observer of the %s raised %r after copy()" % (cls, e), rp)
+        return ent, enc_o, root_o
+    for name in names_o:
         k = rng.randrange(2)
         a, b = sides[k], sides[1 - k]
         before = digest(b)
@@ -518,13 +589,16 @@ def compare_model(ctx, reply, ent, rp, label):
         ctx.mismatch("copy", "model answers %r where the implementation copied a %s" % (reply, label), rp)
         return
     parts = reply.split()
-    flags = dict(p.split("=", 1) for p in parts[1:6])
-    model_ent = dict(p.split("=", 1) for p in parts[6:])
+    flags = dict(p.split("=", 1) for p in parts[1:7])
+    model_ent = dict(p.split("=", 1) for p in parts[7:])
     if flags.get("wt") != "1":
         ctx.mismatch("conforms", "a live %s does not conform to the regenerated attribute-kind table "
                                  "(hypothesis of copy_independent)" % label, rp)
     if flags.get("closed") != "1" or flags.get("ord") != "1":
         ctx.mismatch("closed", "harness produced an unclosed / unordered heap", rp)
+    if flags.get("pyd") != "1":
+        ctx.mismatch("distinct-keys", "a live %s (or its model copy) has a dict / __dict__ with repeated keys "
+                                      "(hypothesis PyDict of srcCopyObj_eq)" % label, rp)
     if model_ent != ent:
         diff = sorted(set(model_ent.items()) ^ set(ent.items()))[:6]
         ctx.mismatch("sharing-graph", "model and implementation sharing graphs differ for %s: %r" % (label, diff),
@@ -1281,7 +1355,9 @@ theorem mutEffects_ok :
     return "\n".join(out) + "\n", obl, {"n_rows": len(rows), "n_effects": sum(len(v) for v in rows.values())}
 
 
-LM_FRAG = ["2", "N", "D", "0", "N", "O:" + LM_QUAL, "1", "_landmark_groups", "r0"]
+# (the cells of a lazily created LandmarkManager are no longer sent by the harness: op "T" makes the driver run
+#  putFresh with Src.lmFrag, which GenProps/C06Src.lean proves to be what the TRANSLATED `Landmarkable.landmarks`
+#  getter and `LandmarkManager.__init__` build - landmarksGetter_eq)
 
 
 def _ndims(o):
@@ -1299,7 +1375,10 @@ def run_heap_history(ctx, label, obj_seed, hist_seed, n_ops):
     from menpo.shape import PointCloud
     rng = random.Random(hist_seed)
     rp = {"part": "history", "label": label, "obj_seed": obj_seed, "hist_seed": hist_seed, "n_ops": n_ops}
-    roots = [X.make(label, random.Random(obj_seed))]
+    root0 = _make(ctx, label, random.Random(obj_seed), rp)
+    if root0 is None:
+        return [], [], False
+    roots = [root0]
     keyenc = X.Enc()._key
     E, rv = encode_many(roots)
     init = [str(rv[0][1]), str(len(E.cells))]
@@ -1404,7 +1483,7 @@ def run_heap_history(ctx, label, obj_seed, hist_seed, n_ops):
                             lm = t if is_mgr else t.landmarks
                             try:
                                 lm[key] = src
-                                ops = ([["F", str(i)] + _ptoks(nm) + ["_landmarks"] + LM_FRAG] if mgr_none else [])
+                                ops = ([["T", str(i)] + _ptoks(nm)] if mgr_none else [])
                                 ops.append(["P", str(i)] + _ptoks(dpath) + [keyenc(key), str(j)] + _ptoks(nm2))
                                 follow = (j, nm2)
                             except ValueError:
@@ -1468,7 +1547,7 @@ def run_heap_history(ctx, label, obj_seed, hist_seed, n_ops):
                 if cands:
                     idx, o, nm = rng.choice(cands)
                     o.landmarks
-                    ops = [["F", str(i)] + _ptoks(nm) + ["_landmarks"] + LM_FRAG]
+                    ops = [["T", str(i)] + _ptoks(nm)]
                     desc = "touch r%d.%s.landmarks" % (i, ".".join(nm))
             else:
                 cands = objs(i, Landmarkable)
@@ -1583,7 +1662,9 @@ def check_pwa_memo(ctx, seed):
     """the one slot treated as outside the quantifier: a copy and its original may share the memo tuple; no public
     operation on one may change what the other computes"""
     rng = random.Random(seed)
-    o = X.make("CachedPWA", rng)
+    o = _make(ctx, "CachedPWA", rng, {"part": "pwa-memo", "obj_seed": seed})
+    if o is None:
+        return
     site = "C06/copy/CachedPWA.memo"
     p1 = np.array([[1.0, 1.0], [2.0, 2.5]])
     p2 = np.array([[0.5, 0.5], [3.0, 0.5], [1.0, 2.0]])
@@ -1604,16 +1685,90 @@ EFF_PATH = "MenpoModel/Generated/C06Effects.lean"
 
 
 def generated(ctx):
-    eff_text, eff_obl, eff_notes = effects_lean()
-    files, notes = X.lean_files(extra_import=EFF_MODULE, extra_obligations=eff_obl)
-    files[EFF_PATH] = eff_text
-    notes["mutator_effects"] = eff_notes
-    ctx.notes["generated_tables"] = notes
-    ok = common.build_generated(ctx, files, [X.GEN_MODULE, EFF_MODULE, X.OBL_MODULE], 3)
-    if not ok:
-        ctx.notes["generated_obligation"] = "copyWF / copySupplier_ok no longer check against the live classes"
-    if notes["missing_instances"]:
-        ctx.notes["classes_without_instance"] = notes["missing_instances"]
+    try:
+        eff_text, eff_obl, eff_notes = effects_lean()
+        files, notes = X.lean_files(extra_import=EFF_MODULE, extra_obligations=eff_obl)
+    except Exception as e:  # noqa: BLE001  populated instances cannot be built / copied / mutated on this tree
+        import traceback
+        ctx.gen_obligations += 3
+        ctx.broken_obligations.append({"targets": [X.GEN_MODULE, EFF_MODULE, X.OBL_MODULE],
+                                       "errors": ["table extraction from the live classes raised %r" % (e,)],
+                                       "output_tail": traceback.format_exc()[-2500:]})
+        ctx.notes["generated_obligation"] = "the attribute-kind / mutator-effect tables cannot be extracted: %r" % (e,)
+        files, notes = None, None
+    from . import trans_c06 as TR
+    sfiles, reasons = TR.generated_files()
+    # one `lake build` for the tables and the translated source when everything holds (the common case: one wait for
+    # the build lock instead of two); on failure the two groups are built separately to say which one broke
+    import os
+    all_ok = False
+    if files is not None:
+        files[EFF_PATH] = eff_text
+        for rel, text in list(files.items()) + list(sfiles.items()):
+            common.write_if_changed(os.path.join(common.LEAN, rel), text)
+        all_ok, _out = common.lake_build([X.GEN_MODULE, EFF_MODULE, X.OBL_MODULE] + TR.GEN_TARGETS)
+    if files is not None:
+        notes["mutator_effects"] = eff_notes
+        ctx.notes["generated_tables"] = notes
+        if all_ok:
+            ctx.gen_obligations += 3
+            ok = True
+        else:
+            ok = common.build_generated(ctx, files, [X.GEN_MODULE, EFF_MODULE, X.OBL_MODULE], 3)
+        if not ok:
+            ctx.notes["generated_obligation"] = "copyWF / copySupplier_ok no longer check against the live classes"
+        if notes["missing_instances"]:
+            ctx.notes["classes_without_instance"] = notes["missing_instances"]
+    # the bodies of the anchored functions, TRANSLATED from the source text of the working tree (harness/trans_c06.py)
+    # and proved equal to the model (GenProps/C06Src.lean)
+    if all_ok:
+        ctx.gen_obligations += TR.N_OBLIGATIONS
+        ok_src = True
+    else:
+        ok_src = common.build_generated(ctx, sfiles, TR.GEN_TARGETS, TR.N_OBLIGATIONS)
+    ctx._c06_src_ok = ok_src
+    ctx.notes["source_translation"] = {
+        "functions_translated": TR.N_FUNCTIONS - len(reasons), "untranslatable": reasons,
+        "equality_obligations": TR.N_OBLIGATIONS,
+        "status": "all equalities re-proved against the current source" if ok_src else
+                  "BROKEN: " + ", ".join(_broken_src_theorems(ctx) or ["(the translated file does not type-check)"])}
+    if not ok_src:
+        ctx.notes["generated_obligation_src"] = ("the source text of the anchored functions no longer translates to "
+                                                 "the model the theorems are about")
+
+
+def _broken_src_theorems(ctx):
+    """names of the theorems of GenProps/C06Src.lean in which the last build reported an error"""
+    import os
+    import re
+    path = os.path.join(common.LEAN, "MenpoModel", "GenProps", "C06Src.lean")
+    try:
+        lines = open(path).read().splitlines()
+    except OSError:
+        return []
+    names = []
+    for b in ctx.broken_obligations:
+        for m in re.finditer(r"GenProps/C06Src\.lean:(\d+):\d+", b.get("output_tail", "") + "\n".join(b.get("errors", []))):
+            ln = int(m.group(1))
+            for k in range(min(ln, len(lines)) - 1, -1, -1):
+                mm = re.match(r"\s*(?:theorem\s+(\w+)|(example)\b)", lines[k])
+                if mm:
+                    nm = mm.group(1) or "a non-vacuity example"
+                    if nm not in names:
+                        names.append(nm)
+                    break
+    ctx._c06_src_broken = names
+    return names
+
+
+def _prepare(ctx):
+    """regenerate (tables + translated source), build, audit: the theorems about the translated bodies are audited
+    when their module builds (otherwise they are already reported as a broken obligation)"""
+    generated(ctx)
+    src_ok = getattr(ctx, "_c06_src_ok", False)
+    imports = IMPORTS + ([SRC_OBL_MODULE] if src_ok else [])
+    theorems = [t for t in THEOREMS if src_ok or t not in SRC_THEOREMS]
+    return common.prepare_lean(ctx, PROP, imports, theorems, targets=TARGETS, generated=None)
 
 
 def part_a(ctx, n, with_model=True):
@@ -1660,30 +1815,52 @@ def search(ctx):
     """directed search after a broken tie: the oracle alone on many more objects (every class, all variants) and
     histories; classes named by a broken obligation first"""
     rng = ctx.rng
-    for k in range(40 * len(X.LABELS)):
-        label = X.LABELS[k % len(X.LABELS)]
-        check_object(ctx, label, rng.randrange(1 << 30))
-        ctx.searched += 1
-        if ctx.failures:
-            return True
-    for k in range(1500):
-        ops = gen_history(rng, rng.randint(8, 40))
-        run_history(ctx, ops, seed_for_owner=k)
-        ctx.searched += 1
-        if ctx.failures:
-            return True
-    for k in range(30 * len(X.LABELS)):
-        run_heap_history(ctx, X.LABELS[k % len(X.LABELS)], rng.randrange(1 << 30), rng.randrange(1 << 30),
-                         rng.randint(6, 16))
-        ctx.searched += 1
-        if ctx.failures:
+
+    def objects():
+        for k in range(40 * len(X.LABELS)):
+            label = X.LABELS[k % len(X.LABELS)]
+            check_object(ctx, label, rng.randrange(1 << 30))
+            ctx.searched += 1
+            if ctx.failures:
+                return True
+        return False
+
+    def managers():
+        for k in range(1500):
+            ops = gen_history(rng, rng.randint(8, 40))
+            run_history(ctx, ops, seed_for_owner=k)
+            ctx.searched += 1
+            if ctx.failures:
+                return True
+        return False
+
+    def histories():
+        for k in range(30 * len(X.LABELS)):
+            run_heap_history(ctx, X.LABELS[k % len(X.LABELS)], rng.randrange(1 << 30), rng.randrange(1 << 30),
+                             rng.randint(6, 16))
+            ctx.searched += 1
+            if ctx.failures:
+                return True
+        return False
+
+    # a broken equality of a translated manager method (GenProps/C06Src.lean: lm…_eq, setLandmarks_eq, srcStep_eq)
+    # points at the manager histories, one of the lazily created manager at the heap histories
+    broken = getattr(ctx, "_c06_src_broken", [])
+    if any(n.startswith(("lmInitHeap", "landmarksGetter")) for n in broken):
+        phases = [histories, managers, objects]
+    elif any(n.startswith(("lm", "setLandmarks", "srcStep")) for n in broken):
+        phases = [managers, histories, objects]
+    else:
+        phases = [objects, managers, histories]
+    for ph in phases:
+        if ph():
             return True
     return False
 
 
 def run(ctx):
     _install_cap(ctx)
-    common.prepare_lean(ctx, PROP, IMPORTS, THEOREMS, targets=TARGETS, generated=generated)
+    _prepare(ctx)
     ctx.trusted += ["harness/extract_c06.py: encoding of live object graphs as heaps and extraction of the "
                     "attribute-kind / copy-resolution tables",
                     "numpy/scipy `.copy()` of an array / sparse matrix returns fresh buffers (contract; checked on "
@@ -1707,7 +1884,7 @@ def replay(ctx, path):
     _install_cap(ctx)
     data = json.load(open(path))
     rp = data.get("replay") or (data.get("broken_correspondence") or [{}])[0].get("case", {})
-    common.prepare_lean(ctx, PROP, IMPORTS, THEOREMS, targets=TARGETS, generated=generated)
+    _prepare(ctx)
     part = rp.get("part")
     if part == "copy":
         res = check_object(ctx, rp["label"], rp["obj_seed"])
